@@ -10,7 +10,9 @@ use std::process::Command;
 
 pub type OutcomeSets = HashMap<(String, String), BTreeSet<String>>;
 
-pub fn outcome_sets(ctx: &Ctx) -> Result<OutcomeSets, String> {
+/// `repaired` = the protocol as it is in the tree (the shutdown manager tells late registrations at once);
+/// `false` explores the protocol as it was before repair 8dc9ff0 (used as a self-test of the model).
+pub fn outcome_sets(ctx: &Ctx, repaired: bool) -> Result<OutcomeSets, String> {
     let model = ctx.verif_root.join("models/shutdown.pml");
     if !model.exists() {
         return Err(format!("{} missing", model.display()));
@@ -26,7 +28,7 @@ pub fn outcome_sets(ctx: &Ctx) -> Result<OutcomeSets, String> {
         }
         Ok(text)
     };
-    run(Command::new("spin").arg("-a").arg(&model))?;
+    run(Command::new("spin").arg(format!("-DIMPL_REMEMBERS={}", repaired as u8)).arg("-a").arg(&model))?;
     run(Command::new("gcc").args(["-O1", "-w", "-DNOREDUCE", "-o", "pan", "pan.c"]))?;
     let out = run(Command::new("./pan").args(["-m100000", "-c0", "-E"]))?;
     let mut sets: OutcomeSets = HashMap::new();
@@ -48,6 +50,10 @@ pub fn outcome_sets(ctx: &Ctx) -> Result<OutcomeSets, String> {
     }
     if out.contains("errors: ") && !out.contains("errors: 0") {
         ctx.note(format!("spin reports errors in the model: {}", out.lines().filter(|l| l.contains("errors:") || l.contains("assertion") || l.contains("invalid end")).collect::<Vec<_>>().join(" | ")));
+    }
+    if !repaired {
+        let _ = std::fs::remove_dir_all(&dir);
+        return Ok(sets);
     }
     ctx.set("spin_states_stored", json!(states_stored));
     ctx.set("spin_transitions", json!(transitions));
